@@ -3,7 +3,8 @@ ALL tables of m.db and p.db, proved of the composite model and evaluated on the 
 from props.parts import _lib1
 
 NS = "EngineModel.Properties.C11Lib1."
-LEAN_MODULES = ["Properties.C11Lib1"]
+NSR = "EngineModel.Properties.C11Lib1Refs."
+LEAN_MODULES = ["Properties.C11Lib1", "Properties.C11Lib1Refs"]
 THEOREMS = [NS + t for t in [
     "C11_lib1_invariant_after_every_history",
     "C11_lib1_step_preserves_invariant",
@@ -17,13 +18,31 @@ THEOREMS = [NS + t for t in [
     "C11_lib1_clean_after_every_history_partial",
     "C11_lib1_stored_blobs_decode",
     "C11_lib1_stored_blobs_decode_reachable",
+]] + [NSR + t for t in [
+    # work-package lib1plant: the library + the rows Engine DJ writes in PlaylistTrackList / HistorylistTrackList /
+    # PreparelistTrackList / CopiedTrack (Lib/V1Refs.lean), which remove_track deletes explicitly
+    "C11_lib1_refs_invariant_after_every_history",
+    "C11_lib1_refs_step_preserves_invariant",
+    "C11_lib1_refs_foreign_key_check_clean",
+    "C11_lib1_refs_foreign_key_check_clean_reachable",
+    "C11_lib1_refs_raw_check_after_every_history",
+    "C11_lib1_refs_rows_of_live_tracks",
+    "C11_lib1_refs_remove_track_deletes_rows",
+    "C11_lib1_refs_library_projection",
+    "C11_lib1_refs_every_delete_is_needed",
+    "C11_lib1_refs_counterexample",
 ]]
 ASSUMPTIONS = [
     "1.x composite: Lib1 holds the tracks package's per-track rows (TracksV1.Db) and the crates package's tables "
     "(CratesV1.Db) side by side; the flat tables of the two files are the projection `raw`, compared with the real dump "
-    "(all tables that carry a key, full rows of every track) after every step on the sampled histories; tables no public "
-    "call writes (Playlist / Historylist / Preparelist and their track lists, CopiedTrack, non-crate List* rows) are "
-    "dumped by the keys their foreign keys mention and modelled as constant; ChangeLog / Pack / sqlite_sequence of other "
+    "(all tables that carry a key, full rows of every track) after every step on the sampled histories; the tables no public "
+    "call INSERTS into but remove_track deletes from (PlaylistTrackList / HistorylistTrackList / PreparelistTrackList / "
+    "CopiedTrack; from 1.9.1 the ListTrackList rows of type 1-3 behind the views) are state of the extended model "
+    "Lib/V1Refs.lean (one (table, trackId) per row; other columns are not modelled), written by the environment step "
+    "plantRefs = harness lib1.plantrefs (raw connection: parent rows Playlist / Historylist / Preparelist id 1 and one row per "
+    "table with non-NULL trackIdInOriginDatabase / databaseUuid / trackNumber, as Engine writes them — the INSTEAD OF DELETE "
+    "triggers of the 1.9.1+ views compare those columns with `=`, a row with a NULL there would not be matched and is "
+    "outside the sampled inputs); the parent rows (Playlist / Historylist / Preparelist, List of type 1-3) are not modelled; ChangeLog / Pack / sqlite_sequence of other "
     "tables are bookkeeping outside the model (compared around observers only)",
     "1.x composite: a track handle is an id; after fix a5d64c8 no public call returns a handle of the NULL-path "
     "placeholder row, and the model answers `track_deleted` for such an id like for any id without rows",
@@ -43,7 +62,13 @@ MANIFEST_TEXT = ("Schema 1.x, whole library as ONE transition system (EngineMode
                  "default AlbumArt row, and every stored performance blob is the decoder's reading of the encoder's bytes "
                  "(C11_lib1_stored_blobs_decode, composing with the codec bridge); libInvRaw is evaluated by the Lean driver "
                  "on the raw dump of the real m.db / p.db after every step of interleaved crate / membership / track "
-                 "histories.")
+                 "histories.  With the rows Engine DJ writes in PlaylistTrackList / HistorylistTrackList / PreparelistTrackList / "
+                 "CopiedTrack as state (Lib/V1Refs.lean, environment step plantRefs interleaved with the public calls in any "
+                 "order): no row of the four tables names a missing track and foreign_key_check incl. those keys is clean after "
+                 "every history (C11_lib1_refs_invariant_after_every_history, C11_lib1_refs_foreign_key_check_clean), "
+                 "remove_track deletes exactly the rows of its track, and each of the four DELETEs is necessary "
+                 "(C11_lib1_refs_every_delete_is_needed, C11_lib1_refs_counterexample); the tie plants those rows through "
+                 "the raw connection on tracks removed later and on tracks that stay, on all eleven versions.")
 
 PLAN_QUICK = [("mixed", 16, 8), ("members", 16, 5), ("forest", 10, 1)]
 PLAN_THOROUGH = [("mixed", 30, 24), ("members", 30, 16), ("forest", 20, 6)]
@@ -53,7 +78,10 @@ def tie(ctx):
     r = _lib1.run_part(ctx, "C11", PLAN_QUICK if ctx.tier == "quick" else PLAN_THOROUGH, ("inv",), disk_share=0.25,
                        track_ops=0.5)
     r["rule"] = ("interleaved crate / membership / track histories (create_track with real snapshots, update, the 26 "
-                 "setters, remove_track, every crate call; live and removed handles) on %s; after EVERY call: crate "
+                 "setters, remove_track, every crate call; live and removed handles; lib1.plantrefs = Engine's rows in "
+                 "PlaylistTrackList / HistorylistTrackList / PreparelistTrackList / CopiedTrack written through the raw "
+                 "connection before removals and on tracks that stay) on %s; after EVERY call: PRAGMA "
+                 "music.foreign_key_check clean and no row of those tables naming an id without Track row (direct),  crate "
                  "observation, per-track observation and a raw dump of ALL tables of m.db and p.db compared harness <-> "
                  "composite Lean model, and the executable LibInv (libInvRaw) evaluated by the Lean driver on the REAL dump "
                  "(direct oracle); qualified PRAGMA music./perfdata. foreign_key_check / integrity_check at the end of every "
@@ -62,6 +90,6 @@ def tie(ctx):
 
 
 def replay(ctx, hdr, body):
-    if hdr.get("oracle", "").startswith(("lib1.inv", "lib1.pragmas", "lib1.ub")) or not hdr.get("oracle"):
+    if hdr.get("oracle", "").startswith(("lib1.inv", "lib1.pragmas", "lib1.ub", "lib1.fk", "lib1.refs")) or not hdr.get("oracle"):
         return _lib1.replay(ctx, hdr, body)
     return None
